@@ -116,7 +116,51 @@ def gen_jobs(ctx):
     return jobs
 
 
+def kept_oracle(case, op, arg, impl):
+    """"Elements on the exemption list are left untouched": an exempt short circuit or source survives the contraction / source
+    stripping with its identifier, kind and values — unless the contraction of OTHER elements has joined its two terminals (it is
+    then a loop and its voltage is 0 anyway)"""
+    bad = []
+    if op not in ('remove_short_circuit_elements', 'remove_ideal_voltage_sources', 'passive_network') or not arg or 'net' not in impl:
+        return bad
+    raw = {b['id']: b for b in impl.get('input_raw', case)['branches']}
+    out = {b['id']: b for b in impl['net']['branches']}
+    keep = arg
+
+    def kept(b):
+        return any(k['id'] == b['id'] and k['ctor'] == b['ctor'] and k['args'] == b['args'] for k in keep)
+    parent = {}
+
+    def find(x):
+        parent.setdefault(x, x)
+        while parent[x] != x:
+            parent[x] = parent[parent[x]]
+            x = parent[x]
+        return x
+    for b in case['branches']:
+        if b['id'] not in out and not kept(b) and b['ctor'] not in ('current_source', 'open_circuit'):
+            parent[find(b['n1'])] = find(b['n2'])
+    for b in case['branches']:
+        if not kept(b) or b['ctor'] not in ('short_circuit', 'voltage_source', 'current_source'):
+            continue
+        if b['id'] in out:
+            o, r = out[b['id']], raw[b['id']]
+            if (o['ctor'], o['args']) != (r['ctor'], r['args']):
+                bad.append((f'C16:{op}-touches-exempt-element', f'{op}: exempt element {b["id"]!r} was {r["ctor"]}{r["args"]} and is now '
+                            f'{o["ctor"]}{o["args"]}'))
+                return bad
+        elif find(b['n1']) != find(b['n2']):
+            bad.append((f'C16:{op}-touches-exempt-element', f'{op}: exempt element {b["id"]!r} ({b["ctor"]}) is gone although nothing that was '
+                        f'contracted joins its terminals {b["n1"]!r} and {b["n2"]!r}'))
+            return bad
+    return bad
+
+
 def identity_oracle(case, op, arg, impl):
+    return kept_oracle(case, op, arg, impl) + identity_oracle_(case, op, arg, impl)
+
+
+def identity_oracle_(case, op, arg, impl):
     """electrical identity for the two pure simplifications (and their exemption lists)"""
     bad = []
     if op not in ('remove_open_circuit_elements', 'remove_short_circuit_elements'):
